@@ -338,13 +338,17 @@ def semantic_variants(case, info, rnd):
     for m, variants in info['sigs'].items():
         for ops in variants:
             for i, k in enumerate(ops):
-                if k in ('n8', 'n16', 'n4', 'n12', 'm16', 'ir'):
+                if k in ('n8', 'n16', 'n4', 'n12', 'm16', 'ir', 'nb'):
                     cands.append((m, ops, i, k))
     rnd.shuffle(cands)
     pg = gen.ProgGen(random.Random(rnd.random()), info)
     for m, ops, i, k in cands[:4]:
         w = width[k]
-        for val, tag in ((1 << w, 'E4-overflow'), (-(1 << (w - 1)) - 1, 'E4-underflow')):
+        vals = ((1 << w, 'E4-overflow'), (-(1 << (w - 1)) - 1, 'E4-underflow'))
+        if k == 'nb':
+            # a range-checked bit field 0..7: one past either bound (a negative value fits the raw 3-bit width)
+            vals = ((8, 'E4-overflow'), (-1, 'E4-underflow'), (-3, 'E4-underflow'))
+        for val, tag in vals:
             texts = []
             for j, kk in enumerate(ops):
                 if j == i:
